@@ -21,14 +21,14 @@ CFG = {
     # (the hist and p export configurations also carry the invariants and action properties: one TLC run explores,
     # checks and exports; the docs model is checked under the forest view with more prior states than are exported)
     "quick": dict(mc=["MC_ConfigLoad_docs.cfg"],
-                  gen=["Gen_ConfigLoad_p.cfg", "Gen_ConfigLoad_hist.cfg", "Gen_ConfigLoad_docs.cfg"],
+                  gen=["Gen_ConfigLoad_merge.cfg", "Gen_ConfigLoad_p.cfg", "Gen_ConfigLoad_hist.cfg", "Gen_ConfigLoad_docs.cfg"],
                   nhist=10, steps=40),
     "thorough": dict(mc=["MC_ConfigLoad_docs_t.cfg"],
-                     gen=["Gen_ConfigLoad_hist_t.cfg", "Gen_ConfigLoad_two_t.cfg", "Gen_ConfigLoad_p_t.cfg", "Gen_ConfigLoad_hist3_t.cfg",
+                     gen=["Gen_ConfigLoad_merge_t.cfg", "Gen_ConfigLoad_hist_t.cfg", "Gen_ConfigLoad_two_t.cfg", "Gen_ConfigLoad_p_t.cfg", "Gen_ConfigLoad_hist3_t.cfg",
                           "Gen_ConfigLoad_docs_t.cfg"],
                      nhist=50, steps=70),
 }
-CHECKED = ("Gen_ConfigLoad_hist.cfg", "Gen_ConfigLoad_p.cfg", "Gen_ConfigLoad_hist_t.cfg", "Gen_ConfigLoad_p_t.cfg",
+CHECKED = ("Gen_ConfigLoad_merge.cfg", "Gen_ConfigLoad_merge_t.cfg", "Gen_ConfigLoad_hist.cfg", "Gen_ConfigLoad_p.cfg", "Gen_ConfigLoad_hist_t.cfg", "Gen_ConfigLoad_p_t.cfg",
            "Gen_ConfigLoad_hist3_t.cfg")
 LISTKEYS = ("uni", "rel", "vars", "items", "els", "paths")
 PATH_ACTIONS = ("pset", "pnext", "plast", "pdel", "paddelem")
@@ -326,11 +326,14 @@ class Hist:
                        [[97], [115]], [[97], [115], [98]], BASE, [[109, 112, 116]]]
         self.events = []
         self.steps = steps
+        self.hot = []          # paths some call of this history assigned to (query messages ask mostly for these)
 
     def path(self):
         return self.rng.choice(self.paths)
 
     def note(self, p):
+        if p:
+            self.hot.append(p)
         if p and p not in self.paths and len(self.paths) < 40:
             self.paths.append(p)
 
@@ -396,6 +399,7 @@ class Hist:
                 via = "view" if p[:2] == BASE and len(p) > 2 and r.random() < 0.7 else "top"
                 s = bjoin(p[2:] if via == "view" else p, 46)
                 self.events.append({"a": "assign", "arg": {"via": via, "path": s, "sep": 46, "end": 0, "val": [c for c in self.val() if c]}})
+                self.hot.append(p)
             elif x < 0.22:
                 p = self.path()
                 self.events.append({"a": "remove", "arg": {"via": "top", "path": bjoin(p, 46), "sep": 46}})
@@ -450,6 +454,8 @@ class Hist:
                 cfg = self.cfg()
                 p = [e for e in self.path()] if r.random() < 0.92 else []
                 v = [c for c in self.val() if c]
+                if r.random() < 0.3:                      # the terminator sent along with the value (and bytes behind it)
+                    v = v + [0] + r.choice([[], [], [122]])
                 if sum(len(e) + 1 for e in p) + len(v) > 1000:
                     v = v[:20]
                     p = p[:1]
@@ -462,8 +468,11 @@ class Hist:
                 cfg = self.cfg()
                 sep = r.choice([0, 0, 32])
                 ps = []
-                for _ in range(r.choice([1, 1, 2, 3])):
-                    p = self.path()
+                for _ in range(r.choice([1, 2, 3, 3, 4])):
+                    p = None if ps and r.random() < 0.25 else r.choice(self.hot[-12:]) if self.hot and r.random() < 0.8 else self.path()
+                    if p is None:
+                        ps.append(list(r.choice(ps)))
+                        continue
                     b = self.cbase(cfg, "msgget")
                     if p[:len(b)] == b and len(p) > len(b):
                         p = p[len(b):]
@@ -478,8 +487,21 @@ class Hist:
                 fmt, acc = r.choice(FORMATS)
                 if kind == "nodeparse" and acc == [0]:
                     acc = list(b"ENSWensw")
+                short = [n for n in self.names if len(n) < 10]
+                if r.random() < 0.6:
+                    # an existing tree below the base first: several elements on one level (some with children), in any
+                    # order, through one argument list; the text then names some of them, others not, and new ones
+                    lvl = r.sample(short, r.choice([2, 3, 3, 4]))
+                    items = []
+                    for n in lvl:
+                        q = base + [n] + ([r.choice(short)] if r.random() < 0.4 else [])
+                        items.append(bjoin(q, 46) + [61] + [c for c in self.val() if c])
+                        self.note(q)
+                    self.events.append({"a": "args", "arg": {"cfg": "top", "log": 0, "items": items}})
                 self.events.append({"a": kind, "arg": {"base": bjoin(base, 46), "bsep": 46, "fmt": fmt, "acc": acc,
-                                                       "docs": [self.doc(base, self.names, r.randrange(0, 6))]}})
+                                                       "docs": [self.doc(base, short if r.random() < 0.7 else self.names, r.randrange(0, 6))]}})
+                for _ in range(r.choice([0, 1, 1, 2])):      # what the merge left behind an element shows after its removal
+                    self.events.append({"a": "remove", "arg": {"via": "top", "path": bjoin(base + [r.choice(short)], 46), "sep": 46}})
         uni = [bjoin(p, 46) for p in self.paths if p]
         rel = [[0]] + [bjoin(p[2:], 46) for p in self.paths if p[:2] == BASE and len(p) > 2]
         init = {"a": "init", "arg": {"base": bjoin(BASE, 46), "sep": 46, "uni": uni, "rel": rel}}
